@@ -50,6 +50,10 @@ def collect(ctx, mode="acyclic", n_quick=400, n_thorough=20000):
     dist["cases_where_impl_violates_oracle"] = sum(len(a["impl_fail_cases"]) for a in an)
     dist["cases_where_asis_model_violates_oracle"] = sum(a["model_asis_unsound_cases"] for a in an)
     dist["disagreements_excused_by_known_finding_order_dependence"] = sum(a["excused_disagree"] for a in an)
+    dist["cases_with_order_choice_points"] = sum(a["order_sensitive_cases"] for a in an)
+    dist["order_sensitive_cases_matching_descending_model"] = sum(a["order_matched_desc"] for a in an)
+    dist["order_sensitive_cases_matching_neither_order_(oracle_only)"] = sum(a["order_unresolved"] for a in an)
+    dist["cases_compared_strictly"] = sum(a["cases"] - a["order_sensitive_cases"] for a in an)
     res.distribution = dist
     return res, an
 
